@@ -92,8 +92,8 @@ theorem le_genLive (h : List Entry) {e : Entry} (he : e ∈ h) (hin : e.inMap = 
   simp only [contrib, hin, and_self, if_true] at this
   exact this
 
-theorem liveSum_eq (h : List Entry) (gl : List Nat) (hn : gl.Nodup) (hin : ∀ e ∈ h, e.inMap = true → e.gen ∈ gl) :
-    liveSum h = (gl.map (genLive h)).sum := by
+theorem liveSum_eq (h : List Entry) (gl : List Nat) (hn : gl.Nodup)
+    (hin : ∀ e ∈ h, e.inMap = true → e.gen ∈ gl ∨ e.size = 0) : liveSum h = (gl.map (genLive h)).sum := by
   induction h with
   | nil =>
     simp only [liveSum, genLive, List.map_nil, List.sum_nil]
@@ -106,7 +106,10 @@ theorem liveSum_eq (h : List Entry) (gl : List Nat) (hn : gl.Nodup) (hin : ∀ e
       by_cases hm : e.inMap = true
       · have : (gl.map fun g => contrib g e).sum = (gl.map fun g => if e.gen = g then (e.size : Int) else 0).sum := by
           apply sum_map_congr; intro g _; simp [contrib, hm]
-        rw [this, sum_indicator gl e.gen _ hn, if_pos (hin e (by simp) hm)]; simp [hm]
+        rw [this, sum_indicator gl e.gen _ hn]
+        rcases hin e (by simp) hm with h | h
+        · rw [if_pos h]; simp [hm]
+        · simp [hm, h]
       · have : (gl.map fun g => contrib g e).sum = 0 := sum_map_zero gl _ (fun g _ => by simp [contrib, hm])
         rw [this]; simp [hm]
     rw [h2]; simp [liveSum]
@@ -140,7 +143,8 @@ theorem relGens_get (c : Nat) (h : List Entry) (gs : List Int) (g : Nat) :
       simp [this]
 
 theorem genLive_release (c : Nat) (h : List Entry) (g : Nat) :
-    genLive (h.map fun e => if e.cache = c then { e with inMap := false } else e) g = genLive h g - relSum c h g := by
+    genLive (h.map fun e => if e.cache = c then { e with inMap := false, deleted := e.inMap || e.deleted } else e) g =
+      genLive h g - relSum c h g := by
   induction h with
   | nil => simp [genLive, relSum]
   | cons e es ih =>
@@ -154,34 +158,67 @@ theorem genLive_release (c : Nat) (h : List Entry) (g : Nat) :
     · have : ¬ (e.cache = c ∧ e.inMap = true ∧ e.gen = g) := fun h => h1 h.1
       simp [h1]; omega
 
-/-! ## the quiescent invariant -/
+/-! ## the accounting invariant (all interleavings) -/
 
-structure QInv (cfg : Cfg) (s : St) : Prop where
-  /-- no call in flight -/
-  quiet : (∀ t, s.pc t = .idle) ∧ s.todo = none
-  /-- every map entry is valid, has a positive size, sits in a listed generation and belongs to a live cache -/
-  live : ∀ e ∈ s.heap, e.inMap = true →
-    e.st = .valid ∧ 0 < e.size ∧ e.gen ∈ s.glist ∧ e.cache < s.ncaches ∧ s.released e.cache = false
+/-- caches the running `Cleanup` pass still has to visit -/
+def St.pending (s : St) : List Nat := s.todo.getD []
+
+structure AInv (cfg : Cfg) (s : St) : Prop where
   /-- the generation list: no duplicates, allocated, not stale, ends with `lastGen` -/
   gl : s.glist.Nodup ∧ (∀ g ∈ s.glist, g < s.ngens ∧ s.stale g = false) ∧ s.glist.getLast? = some s.lastGen
-  /-- every listed generation counts exactly the map entries assigned to it -/
-  acc : ∀ g ∈ s.glist, s.gsize g = genLive s.heap g
   /-- generations that were never created -/
   fresh : ∀ g, s.ngens ≤ g → s.gsize g = 0 ∧ s.stale g = false
   managed : Managed s
+  /-- every listed generation counts exactly the map entries assigned to it -/
+  acc : ∀ g ∈ s.glist, s.gsize g = genLive s.heap g
+  /-- an entry that is being loaded has no size yet -/
+  loading0 : ∀ e ∈ s.heap, e.st = .loading → e.size = 0
+  /-- map entries belong to live caches, are not marked deleted, and sit in an allocated generation -/
+  inmap : ∀ e ∈ s.heap, e.inMap = true →
+    e.cache < s.ncaches ∧ s.released e.cache = false ∧ e.deleted = false ∧ e.gen < s.ngens ∧ e.st ≠ .abandoned
+  /-- an entry that left its map while loading is marked, so that `save` will not account it -/
+  orphan : ∀ e ∈ s.heap, e.inMap = false → e.st = .loading → e.deleted = true
+  /-- a valid map entry has a positive size and a listed generation - or a stale one while the running `Cleanup`
+  pass has not visited its cache yet -/
+  valid : ∀ e ∈ s.heap, e.inMap = true → e.st = .valid →
+    0 < e.size ∧ (e.gen ∈ s.glist ∨ (s.stale e.gen = true ∧ e.cache ∈ s.pending))
+  /-- every entry ever created names an existing cache -/
+  cachelt : ∀ e ∈ s.heap, e.cache < s.ncaches
 
-theorem QInv.lastGen_mem {cfg : Cfg} {s : St} (q : QInv cfg s) : s.lastGen ∈ s.glist :=
-  List.mem_of_getLast? q.gl.2.2
+theorem AInv.lastGen_mem {cfg : Cfg} {s : St} (a : AInv cfg s) : s.lastGen ∈ s.glist :=
+  List.mem_of_getLast? a.gl.2.2
 
-/-- **accounting** at a quiescent point: the size the cleaner reports is the sum of the sizes of the map entries -/
-theorem QInv.accounting {cfg : Cfg} {s : St} (q : QInv cfg s) : getSize s = liveSum s.heap := by
-  rw [liveSum_eq s.heap s.glist q.gl.1 (fun e he hin => (q.live e he hin).2.2.1)]
-  exact sum_map_congr _ _ _ q.acc
+theorem AInv.lastGen_lt {cfg : Cfg} {s : St} (a : AInv cfg s) : s.lastGen < s.ngens :=
+  (a.gl.2.1 _ a.lastGen_mem).1
 
-theorem qinv_init (cfg : Cfg) : QInv cfg init := by
-  refine ⟨⟨fun t => by simp [init, St.pc, mget], rfl⟩, by simp [init], ?_, ?_, ?_, managed_init⟩
+/-- **accounting**, whenever no `Cleanup` pass is in progress - loads may be in flight: the size the cleaner reports
+is the sum of the sizes of the map entries -/
+theorem AInv.accounting {cfg : Cfg} {s : St} (a : AInv cfg s) (ht : s.todo = none) : getSize s = liveSum s.heap := by
+  rw [liveSum_eq s.heap s.glist a.gl.1]
+  · exact sum_map_congr _ _ _ a.acc
+  · intro e he hin
+    cases hst : e.st with
+    | loading => exact Or.inr (a.loading0 e he hst)
+    | abandoned => exact absurd hst (a.inmap e he hin).2.2.2.2
+    | valid =>
+      rcases (a.valid e he hin hst).2 with h | h
+      · exact Or.inl h
+      · simp [St.pending, ht] at h
+
+theorem genLive_fresh {cfg : Cfg} {s : St} (a : AInv cfg s) {g : Nat} (hg : s.ngens ≤ g) : genLive s.heap g = 0 := by
+  apply sum_map_zero
+  intro e he
+  unfold contrib
+  split
+  · rename_i h
+    have := (a.inmap e he h.1).2.2.2.1
+    omega
+  · rfl
+
+theorem ainv_init (cfg : Cfg) : AInv cfg init := by
+  refine ⟨?_, ?_, managed_init, ?_, by simp [init], by simp [init], by simp [init], by simp [init], by simp [init]⟩
   · simp [init, St.stale, mget]
-  · simp [init, St.gsize, mget, genLive]
   · intro g _; simp [init, St.gsize, St.stale, mget]
+  · simp [init, St.gsize, mget, genLive]
 
 end SV.Cache
